@@ -284,13 +284,18 @@ PROPS = {
         "assumptions": [],
     },
     "C05": {
-        "lean_modules": ["StimModel.Props.C05"],
+        "lean_modules": ["StimModel.Props.C05", "StimModel.Core.Coin"],
         "areas": [
             {"area": "noise", "n": {"quick": 350, "thorough": 7000}, "replayable": False, "timeout": 3000},
         ],
-        "rule": "TODO",
-        "trusted_base": [],
-        "partial": [],
-        "assumptions": [],
+        "rule": "noise instructions on halves of Bell pairs (the applied Pauli is read exactly from the final Bell measurement): X/Y/Z_ERROR, DEPOLARIZE1/2, PAULI_CHANNEL_1/2 (random argument vectors, "
+                "first argument zero half of the time), E/ELSE_CORRELATED_ERROR chains of length 1..3 (optionally followed by a Pauli channel and another chain), HERALDED_ERASE / HERALDED_PAULI_CHANNEL_1 on "
+                "1..3 targets, noisy M/MX/MRY/MZZ/MPP on eigenstates; probabilities from {0, 1e-4, 0.0199, 0.02, 0.01, 0.125, 0.3, 0.5, 0.51, 0.75, 0.9375, 1}; bulk frame sampler (4099, 10007, 20011 shots) "
+                "and single-shot tableau simulator (2003 shots); per application the histogram of (Pauli, flag) outcomes and for every pair of applications the joint activity count go to the Lean model, "
+                "which derives the exact outcome probabilities and accepts a count iff Bernstein's bound at 1e-12 holds; DemSampler: 2..6 errors with grid probabilities, marginals and pairwise joint counts; "
+                "distinct = distinct (instruction text, simulator, shots)",
+        "trusted_base": ["statistical acceptance: a correct sampler fails one comparison with probability < 1e-12 (Bernstein); a wrong one is detected only if its deviation exceeds the bound at the sampled size"],
+        "partial": ["the random bit generators (RareErrorIterator, biased_randomize_bits beyond the 7-bit ladder) are compared statistically only", "batch sizes are those of the two samplers' public entry points; target positions 1..3"],
+        "assumptions": ["std::mt19937_64 seeded from the case PRNG behaves as an ideal source"],
     },
 }
